@@ -7,7 +7,7 @@ PLAN = dict(
         ],
         rule="parsed programs: every .sc of /repo/examples, /repo/testsuite/{success_check,end_to_end,fail_check}, corpus/{fun,lang} "
              "(all constructs, polymorphic declarations at several nested instances, shadowing, covariable parameters and fields), "
-             "n random well-typed programs of the gen_fun generator (generated without its former instance-order work-around, so constructors / `new` at types no earlier definition mentions occur), and for every accepted program its single-edit mutants in 16 classes (+2: dup-param, new-for-data, for the remaining error variants) "
+             "n random well-typed programs of the gen_fun generator (generated without its former instance-order work-around, so constructors / `new` at types no earlier definition mentions occur), a directed family of well-typed programs that re-bind an outer variable's name in ONE clause / let / label at another type or chirality and use the OUTER variable in the sibling clauses or after the binder's scope (every declaration order of the xtors; case, new, consumer binder, polymorphic instance), and for every accepted program its single-edit mutants in 16 classes (+2: dup-param, new-for-data, for the remaining error variants; +2 round 2: scope-leak = a sibling clause's binder used in another clause, scope-esc = any other name bound elsewhere in the definition or program but not in scope; corpus programs: at most 40 sites per class) "
              "(arg-count arg-type unbound-var unbound-covar missing-clause extra-clause dup-clause clause-binders type-args prd-as-cns "
              "cns-as-prd dup-decl dup-xtor unknown-type unknown-xtor ret-type), corpus programs at every applicable site, random programs "
              "at up to 3 sites per class; every compared case is non-trivial (a whole program through Program::check); distinct = distinct parsed programs; "
@@ -23,7 +23,7 @@ PLAN = dict(
                     "(complement of the known finding), completeness and exactness for all programs with identifier-like names; printed instance names injective; instance table: names distinct, every "
                     "declaration an instantiated template, defs_closed proved and evaluated on the REAL output (VIOL class=output-not-closed), full closure refuted (corpus/fun/c15_unused_*.sc); "
                     "a wrong number of type arguments rejected by the checker at every site (signature, let, destructor, case, constructor, new, Ty::check; declaration fields: spec rejects, checker refuted = known finding); "
-                    "tags dt-wf/dt-ill, closed-full/closed-part",
+                    "tags dt-wf/dt-ill, closed-full/closed-part; scopes: the context of a clause body is exactly outer context ++ own binders (C15_clause_context_exact), names used outside their scope are rejected by rules and checker (C15_reject_scope_leak, C15_check_rejects_scope_leak)",
         assumptions=["sexp::dbg renders the parsed and checked programs faithfully (Debug output of the crates' own types)",
                      "the mutation operators are edits of the parsed AST (fun::syntax::program::Program), not of source text: programs the parser "
                      "could not produce (e.g. a clause of the wrong polarity) are not generated"],
